@@ -17,7 +17,9 @@ in which fields are used, every `unwrap`/index/assert that can panic) lives here
 theorems in Props/C07.lean talk about.  `none` = the Rust panics.
 
 Part 2 is executable GLUE from text to these views (tokenizer, decimal parsers, correctly rounded
-decimal -> f64); it is exercised by the correspondence run only.
+decimal -> f64).  For the canonical spelling (single blanks, plain numerals) it is proved correct in
+Proofs/PlierGlue.lean and Proofs/PlierText.lean; other spellings and the f64 conversion are exercised by
+the correspondence run only.
 
 Abstractions: allocation (`Vec::reserve(n)` with the node count announced in the DIMACS problem line
 and `Vec::with_capacity(count)` in DDSG are not modelled: a count beyond what the allocator grants
@@ -284,7 +286,7 @@ def splitAux (p : Char → Bool) : List Char → List Char → List (List Char)
 def splitWs (cs : List Char) : List (List Char) := splitAux isWs cs []
 
 def digitVal (c : Char) : Option Nat :=
-  if '0' ≤ c ∧ c ≤ '9' then some (c.toNat - '0'.toNat) else none
+  if c.isDigit then some (c.toNat - '0'.toNat) else none
 
 /-- all characters are decimal digits: the number; `none` on an empty list or a non-digit -/
 def digitsVal : List Char → Option Nat
@@ -293,12 +295,14 @@ def digitsVal : List Char → Option Nat
                                  | some a, some d => some (10 * a + d)
                                  | _, _ => none) (some 0)
 
+/-- an optional leading '+' -/
+def stripPlus : List Char → List Char
+  | '+' :: r => r
+  | r => r
+
 /-- `usize::from_str` (64 bit): optional '+', digits, no overflow -/
 def parseUsize (cs : List Char) : Option Nat :=
-  let ds := match cs with
-    | '+' :: r => r
-    | r => r
-  match digitsVal ds with
+  match digitsVal (stripPlus cs) with
   | some n => if n < 18446744073709551616 then some n else none
   | none => none
 
@@ -310,10 +314,7 @@ def parseI32 (cs : List Char) : Option Int :=
     | some n => if n ≤ 2147483648 then some (- Int.ofNat n) else none
     | none => none
   | _ =>
-    let ds := match cs with
-      | '+' :: r => r
-      | r => r
-    match digitsVal ds with
+    match digitsVal (stripPlus cs) with
     | some n => if n ≤ 2147483647 then some (Int.ofNat n) else none
     | none => none
 
@@ -390,19 +391,32 @@ def parseF64 (cs : List Char) : Option Float :=
 
 def mkTok (cs : List Char) : Tok := ⟨parseUsize cs, parseI32 cs, parseF64 cs⟩
 
+/-- printable ASCII, tab or CR -/
+def okChar (c : Char) : Bool :=
+  !(decide (c.toNat ≥ 127) || (decide (c.toNat < 32) && c != '\t' && c != '\r'))
+
 /-- the views of one line; `none` for text outside the modelled domain (printable ASCII, tab, CR: there
 `split_whitespace` and `split_ascii_whitespace` coincide and `get(k..)` is `drop k`) -/
-def mkLine (s : String) : Option Line :=
-  let cs := s.toList
-  if cs.any (fun c => c.toNat ≥ 127 ∨ (c.toNat < 32 ∧ c ≠ '\t' ∧ c ≠ '\r')) then none
-  else some {
-    first := cs.head?
+def viewsOf (cs : List Char) : Line :=
+  { first := cs.head?
     isD := cs == ['d']
     toks := (splitWs cs).map mkTok
     rest2 := (splitWs (cs.drop 2)).map mkTok
     tail12 := parseUsize (cs.drop 12)
     whole := parseUsize cs }
 
-def mkLines (ss : List String) : Option (List Line) := ss.mapM mkLine
+def mkLineC (cs : List Char) : Option Line :=
+  if cs.all okChar then some (viewsOf cs) else none
+
+def mkLinesC : List (List Char) → Option (List Line)
+  | [] => some []
+  | cs :: r =>
+    match mkLineC cs, mkLinesC r with
+    | some l, some ls => some (l :: ls)
+    | _, _ => none
+
+def mkLine (s : String) : Option Line := mkLineC s.toList
+
+def mkLines (ss : List String) : Option (List Line) := mkLinesC (ss.map String.toList)
 
 end Tbx.GraphFiles
